@@ -100,6 +100,16 @@ def check_family(chk, kind, els, boxes, r, tier, tag="grid", oracle_frac=0.25, s
                 chk.drifted(f"{kind}: degenerate box, implementation differs from model", dict(box=list(given)))
             chk.count(f"{kind}:degenerate-box(out of domain)", n)
         # forms agree for every box (also out of domain)
+        if n >= 3 and bi % 2 == 0:
+            # a few positions in any order (the listed ones need not be sorted, adjacent or cover the array)
+            for _ in range(2):
+                inds = np.array(r.sample(range(n), r.choice((2, 3, 3, 4)) if n >= 4 else 2), dtype=np.int64)
+                got = np.asarray(arr.intersects_bounds(given, inds))
+                if len(got) != len(inds) or (got != impl[inds]).any():
+                    chk.violation(sig_override or f"intersects_bounds/{kind}/inds-form-differs/unsorted-subset",
+                                  dict(api=f"{kind.title()}Array.intersects_bounds(inds)", kind=kind, box=list(given),
+                                       inds=inds.tolist()[:20], whole=impl[inds].tolist()[:20], got=got.tolist()[:20]))
+            chk.count("form:inds-subset", 2)
         if bi % 7 == 0:
             for name, inds in (("perm", perm), ("dups", dups), ("empty", np.array([], dtype=np.int64))):
                 got = np.asarray(arr.intersects_bounds(given, inds))
